@@ -137,11 +137,24 @@ def toList (r : IndexRange) : List Nat :=
 
 end IndexRange
 
-/-- `SliceRange::index_range`.  With a negative step the start index is computed as
-`dim_size - 1 - resolved.start` in `usize`: when that is negative the subtraction
-overflows (panic with overflow checks; otherwise it wraps to `usize::MAX` and
-`IndexRange::new` fails `assert!(start <= isize::MAX)`), i.e. a panic either way. -/
+/-- `SliceRange::index_range`.  With a negative step and a non-empty resolved range the start
+index is `dim_size - 1 - resolved.start` in `usize` (an underflow there would be a panic:
+overflow check, or `IndexRange::new`'s `assert!(start <= isize::MAX)` after wrapping; the T3
+theorems show this branch is unreachable).  An empty resolved range yields the empty
+`IndexRange::new(0, 0, step)` (fix `6e0e117`). -/
 def SliceRange.indexRange (r : SliceRange) (n : Nat) : Except Err IndexRange :=
+  match r.resolveClamped n with
+  | none => .error .panic
+  | some (s, e) =>
+    if r.step > 0 then .ok ⟨s, max (e : Int) (-1), r.step⟩
+    else if s = e then .ok ⟨0, 0, r.step⟩
+    else if n < 1 + s then .error .panic
+    else .ok ⟨n - 1 - s, max ((n : Int) - 1 - e) (-1), r.step⟩
+
+/-- `index_range` before fix `6e0e117` (kept as a witness of the defect): no special case for an
+empty resolved range, so `dim_size - 1 - resolved.start` underflows when the start lies before
+the first element or the axis is empty. -/
+def SliceRange.indexRangeOld (r : SliceRange) (n : Nat) : Except Err IndexRange :=
   match r.resolveClamped n with
   | none => .error .panic
   | some (s, e) =>
@@ -358,15 +371,17 @@ def copyRanges : Dims → List SliceItem → Except Err (List (List Nat))
     let rest ← copyRanges ds its
     pure (ir.toList :: rest)
 
-/-- `sliced_shape` of `slice_copy_in`: one entry per *range item* (axes without an item
-contribute nothing). -/
+/-- `sliced_shape` of `slice_copy_in`: one entry per *range item*, followed by the full size of
+every axis that has no item.  An index item must be in range (asserted up front). -/
 def slicedShape : Dims → List SliceItem → Except Err (List Nat)
-  | _, [] => .ok []
+  | d, [] => .ok (sizes d)
   | [], _ :: _ => .error .panic
   | (size, _) :: ds, it :: its => do
     let rest ← slicedShape ds its
     match it with
-    | .index _ => pure rest
+    | .index i =>
+      let pos := if i ≥ 0 then i else i + size
+      if pos ≥ 0 ∧ pos < size then pure rest else .error .panic
     | .range r => do
       let ir ← r.indexRange size
       pure (ir.steps :: rest)
@@ -379,6 +394,29 @@ def sliceCopy (t : TState) (items : List SliceItem) : Except Err TState :=
   | .ok v => .ok (TState.ofArr (denote v (fun i => t.store.getD i 0)))
   | .error _ => do
     let shp ← slicedShape t.view.dims items
+    let lists ← copyRanges t.view.dims items
+    if numel shp ≠ numel (lists.map List.length) then .error .panic
+    else pure (TState.ofArr ⟨shp, (NArr.gather (lists.map Sel.take) t.arr).data⟩)
+
+/-! ### `slice_copy` before the fixes `64c556f` and `bb4fae9` (kept as a witness of the defects) -/
+
+/-- Pre-fix `sliced_shape`: range items only, index items unchecked, unsliced axes forgotten. -/
+def slicedShapeOld : Dims → List SliceItem → Except Err (List Nat)
+  | _, [] => .ok []
+  | [], _ :: _ => .error .panic
+  | (size, _) :: ds, it :: its => do
+    let rest ← slicedShapeOld ds its
+    match it with
+    | .index _ => pure rest
+    | .range r => do
+      let ir ← r.indexRange size
+      pure (ir.steps :: rest)
+
+def sliceCopyOld (t : TState) (items : List SliceItem) : Except Err TState :=
+  match trySlice t.view items with
+  | .ok v => .ok (TState.ofArr (denote v (fun i => t.store.getD i 0)))
+  | .error _ => do
+    let shp ← slicedShapeOld t.view.dims items
     let lists ← copyRanges t.view.dims items
     if numel shp ≠ numel (lists.map List.length) then .error .panic
     else pure (TState.ofArr ⟨shp, (NArr.gather (lists.map Sel.take) t.arr).data⟩)
